@@ -55,7 +55,8 @@ for _pkg, _a in FLAVOURS.items():
 
 for _cls in (G.VariableDefinitionNode, G.VariableNode, G.NamedTypeNode, G.NameNode, G.DocumentNode, G.OperationDefinitionNode, G.SelectionSetNode,
              G.FieldNode, G.ArgumentNode, G.InlineFragmentNode):
-    V.REG.register(_cls, [k for k in _cls.keys if k != "loc"])
+    if _cls not in V.REG.by_cls:          # another contract module may have registered the keys it speaks about
+        V.REG.register(_cls, [k for k in _cls.keys if k != "loc"])
 _OP_NAMES = [m.name for m in G.OperationType]
 V.REG.register(G.OperationType, ["name"], build=lambda name=None: G.OperationType[name if name in _OP_NAMES else "QUERY"])
 OPERATION_TYPE = Cls(G.OperationType, name=StrIn(z3.Union(*[z3.Re(n) for n in _OP_NAMES])))
@@ -67,7 +68,7 @@ RESPONSE, DATA = z3.Const("builder_response", V.Val), z3.Const("builder_data", V
 
 
 def node(cls, **kw):
-    fields = {k: V.VNone for k in cls.keys if k != "loc"}
+    fields = {k: V.VNone for k in V.REG.info(cls).fields}
     fields.update(kw)
     return mk(cls, **fields)
 
